@@ -725,9 +725,16 @@ def main(argv):
         json.dump(ev, f, indent=1, sort_keys=True)
     if violations:
         concrete = [c for c in cases if c["kind"] in ("divergence", "direct")]
+        for c in cases:
+            if "args" in c and "readable" not in c:
+                try:
+                    c["readable"] = "%s(%s)" % (c.get("fn"), ", ".join(show(a, 200) for a in jdec(c["args"])))
+                except Exception:  # noqa
+                    pass
         path = write_replay(prop, {"property": prop, "seed": seed, "tier": tier, "cases": cases[:50]})
         for c in cases[:8]:
-            print("  violation-detail:", json.dumps(c)[:600])
+            d = {k: v for k, v in c.items() if k != "args"} if "readable" in c else c
+            print("  violation-detail:", json.dumps(d, ensure_ascii=False)[:700])
         print("VIOLATION property=%s replay=%s%s" % (prop, path, "" if concrete else " no-failing-input-found"))
         return 1
     print("OK property=%s tier=%s theorems=%d/%d evaluations=%d distinct=%d wall=%.1fs" %
